@@ -238,6 +238,39 @@ func runC12(r *ev.Run) {
 				}
 				m.remove(id)
 				r.Count("ops:remove", 1)
+			case c == 9 && len(m.live) > 0 && len(m.live) <= 6:
+				// remove every live vector (no Flush), then bring one back: a removed id (update) or a fresh one
+				live := m.liveIDs()
+				for _, id := range live {
+					hist = append(hist, histOp{Op: "remove(all)", ID: id})
+					if err := idx.Remove(*comet.NewVectorNodeWithID(id, nil)); err != nil {
+						rep("hnsw.remove-error", err.Error())
+					}
+					m.remove(id)
+				}
+				probe()
+				id, v := live[rng.IntN(len(live))], vg.fresh()
+				if rng.IntN(3) == 0 && len(m.resident) < 2*M {
+					id = ids.next()
+				}
+				hist = append(hist, histOp{Op: "add-after-removing-everything", ID: id, Vec: cloneF32(v)})
+				if err := idx.Add(*comet.NewVectorNodeWithID(id, cloneF32(v))); err != nil {
+					rep("hnsw.add-error", err.Error())
+					return
+				}
+				m.add(id, v)
+				r.Count("ops:add-after-removing-everything", 1)
+			case c == 7 && len(m.removed) > 0 && len(m.resident) < 2*M:
+				// update: re-add a removed id (its tombstone may still be pending)
+				rm := sortedKeys(m.removed)
+				id, v := rm[rng.IntN(len(rm))], vg.fresh()
+				hist = append(hist, histOp{Op: "re-add", ID: id, Vec: cloneF32(v)})
+				if err := idx.Add(*comet.NewVectorNodeWithID(id, cloneF32(v))); err != nil {
+					rep("hnsw.add-error", err.Error())
+					return
+				}
+				m.add(id, v)
+				r.Count("ops:re-add-removed-id", 1)
 			case c == 8 || len(m.resident) >= 2*M:
 				hist = append(hist, histOp{Op: "flush"})
 				if err := idx.Flush(); err != nil {
